@@ -33,9 +33,10 @@ Fixpoint has_variadic_tuple (v : val) : bool :=
   | VUnion k => existsb has_variadic_tuple k
   end.
 
+(* Any[unreachable] is only the derived element type of an empty SequenceValue / dict, not an Any of the type *)
 Fixpoint has_any (v : val) : bool :=
   match v with
-  | VLeaf (LAny _) => true
+  | VLeaf (LAny s) => negb (N.eqb s any_unreachable)
   | VLeaf _ => false
   | VNode _ k => existsb has_any k
   | VUnion k => existsb has_any k
